@@ -327,6 +327,7 @@ func (h *Hook) OnQosPublish(cl *mqtt.Client, pk packets.Packet, sent int64, rese
 		Payload:     pk.Payload,
 		Sent:        sent,
 		Created:     pk.Created,
+		PacketID:    pk.PacketID,
 		Properties: storage.MessageProperties{
 			PayloadFormat:          props.PayloadFormat,
 			MessageExpiryInterval:  props.MessageExpiryInterval,
